@@ -59,7 +59,9 @@ def _addr():
 def _size():
     return st.one_of(st.integers(0, 9), st.integers(0, 4),
                      st.sampled_from([1, 2, 4, 8, 16, 32, 64, 3, 5, 100, 1 << 20]),
-                     st.sampled_from(["neg", "str"]))
+                     st.sampled_from(["neg", "str"]),
+                     # a sizeable share of the whole map (["pow", d] = 2**(addr_width-d) addresses; huge in huge maps)
+                     st.tuples(st.just("pow"), st.integers(1, 4)).map(list))
 
 
 def _align():
@@ -94,7 +96,7 @@ def _spec(draw, tier):
     maps = []
     for i in range(nmaps):
         if i == 0:
-            aw = draw(st.integers(3, 10)) if draw(st.integers(0, 7)) else draw(st.sampled_from([40, 54, 60, 64]))
+            aw = draw(st.integers(3, 10)) if draw(st.integers(0, 7)) else draw(st.sampled_from([40, 54, 60, 64, 64, 65, 72]))
             dw = draw(st.sampled_from([8, 16, 32, 32, 64, 24, 48]))
         else:
             aw = draw(st.integers(1, max(1, min(6, maps[0]["aw"] - 1))))
@@ -298,6 +300,9 @@ def check(spec, stats):
             bad = False
             if isinstance(size, str):
                 size_v = {"neg": -1, "str": "4"}[size]; bad = True
+            elif isinstance(size, list):
+                size_v = (1 << max(mm.aw - size[1], 0)) + (5 if size[1] == 4 else 0)
+                stats.label("resource_of_2**63_addresses_or_more", size_v >= (1 << 63))
             else:
                 size_v = size
             if al is None:
